@@ -207,6 +207,7 @@ def run(ctx):
     # -- R-NO-SHARED-STATE ---------------------------------------------------------------------
     for name, f in sorted(methods.items()):
         bad = None
+        own_functions = {n_.name for n_ in ast.walk(f) if isinstance(n_, FUNC_TYPES) and n_ is not f}   # objects made here: not shared
         for n in walk_shallow(f, include_self=False):
             if isinstance(n, (ast.Global, ast.Nonlocal)):
                 bad = (n, f"{norm(n)}")
@@ -216,6 +217,8 @@ def run(ctx):
                     for sub in ast.walk(t):
                         if isinstance(sub, ast.Attribute) and isinstance(sub.ctx, ast.Store):
                             ch = attr_chain(sub)
+                            if ch and len(ch) == 2 and ch[0] in own_functions:
+                                continue
                             if not ch or ch[0] != "self" or len(ch) != 2:
                                 bad = (n, f"store to {norm(sub)}")
         ctx.check("R-NO-SHARED-STATE", f"{TFR}.{name}", f, bad is None, f"writes shared state: {bad[1] if bad else ''}", construct=f"{REAL}:{TFR}.{name}::writes")
